@@ -319,6 +319,10 @@ theorem lower_noPubUse (evs : List Ev) (h : noPubUse evs = true) (i : Info) (hk 
       have hk' : AliasKeysPlain (step i (.modOpen pre x)) := hk
       obtain ⟨h1, h2⟩ := ih (by simpa [noPubUse] using h) _ hk'
       exact ⟨by rw [h1]; simp [fnDecls, step], h2⟩
+    | letS pre pub x e =>
+      have hk' : AliasKeysPlain (step i (.letS pre pub x e)) := hk
+      obtain ⟨h1, h2⟩ := ih (by simpa [noPubUse] using h) _ hk'
+      exact ⟨by rw [h1]; simp [fnDecls, step], h2⟩
     | use pre pub path t =>
       simp only [noPubUse, Bool.and_eq_true, Bool.not_eq_true'] at h
       obtain ⟨hp, hrest⟩ := h
